@@ -203,6 +203,9 @@ func (f *StringFormatter) Format(format string, values []value.Primary) (string,
 	return f.buf.String(), nil
 }
 
+// maxFormatNumber is the largest width or precision taken from a format string (the limit of package fmt).
+const maxFormatNumber = 1e6
+
 func (f *StringFormatter) runes() []rune {
 	return f.format[(f.formatPos - f.offset):f.formatPos]
 }
@@ -212,7 +215,10 @@ func (f *StringFormatter) literal() string {
 }
 
 func (f *StringFormatter) integer() int {
-	i, _ := strconv.Atoi(string(f.runes()))
+	i, err := strconv.Atoi(string(f.runes()))
+	if err != nil || maxFormatNumber < i {
+		i = maxFormatNumber
+	}
 	return i
 }
 
